@@ -3,4 +3,4 @@
 Require Import Pk.Search.
 Require Extraction.
 Require Import ExtrOcamlBasic.
-Extraction "c02_model.ml" search_algo v_orig v_fixed idok_of key_lt sub_search entry_matches_part sel_remove sel_empty number_filter group_values host_filter flag_filter mkStream mkFile mkQpart.
+Extraction "c02_model.ml" search_algo v_orig v_fixed idok_of key_lt sub_search entry_matches_part sel_remove sel_empty number_filter group_values host_filter flag_filter inline_conj_with mkStream mkFile mkQpart.
